@@ -10,6 +10,7 @@ mod c11;
 mod c12;
 mod c13;
 mod c14;
+mod c18;
 mod ext;
 mod c20;
 mod ev;
@@ -48,6 +49,7 @@ fn main() {
         "c12" => c12::main(tier),
         "c13" => c13::main(tier),
         "c14" => c14::main(tier),
+        "c18" => c18::main(tier),
         "c20" => c20::main(tier),
         "eval" => {
             // vmc eval '<program>' '<input as jq program>' [inputs as jq programs...]
